@@ -208,6 +208,8 @@ func cmdReplay(args []string) {
 	par := fs.Int("par", 8, "parallel")
 	statsOut := fs.String("stats", "", "write statistics (json) here")
 	readAudit := fs.Float64("readaudit", 0, "probability of auditing after a read (events may carry an explicit audit flag)")
+	rename := fs.Int("rename", -1, "lengthen the collection names of history i by (i + rename) mod 17 bytes (keys, and whatever is built from them, then have every length modulo an allocator's size classes)")
+	grid := fs.Bool("grid", false, "histories come in groups of 32 copies: name lengths +0..15, numbers as given and as 0, 1, 2")
 	fs.Parse(args)
 
 	raw, err := os.ReadFile(*in)
@@ -262,6 +264,32 @@ func cmdReplay(args []string) {
 				}
 			}
 			header["numTable"], header["timeTable"] = nt, tt
+			if *grid {
+				// every name length 0..15 bytes longer, first with the model's numbers as they are, then as 0, 1, 2
+				*rename = 0
+			}
+			if (*rename >= 0 && !*grid && i%2 == 1) || (*grid && (i/16)%2 == 1) {
+				// ... and every other history reads the model's three numbers as 0, 1, 2 instead of 1, 2, 3 (the model
+				// depends on their order and representations only): the shortest encodings there are
+				for _, e := range hists[i] {
+					for k, v := range e {
+						e[k] = remapNums(v, map[int]int{8: 6, 10: 8, 11: 10})
+					}
+				}
+			}
+			if *rename >= 0 {
+				suffix := strings.Repeat("n", (i+*rename)%17)
+				if *grid {
+					suffix = strings.Repeat("n", i%16)
+				}
+				for _, e := range hists[i] {
+					for _, k := range []string{"c", "name"} {
+						if c, ok := e[k].(string); ok {
+							e[k] = c + suffix
+						}
+					}
+				}
+			}
 			lines, stats := runTrace(NewUniverse(nt, tt), bes, hists[i], header, true, *readAudit, int64(i))
 			results[i] = lines
 			allStats[i] = stats
@@ -316,3 +344,31 @@ func main() {
 }
 
 var extraCommands = map[string]func([]string){}
+
+// remapNums replaces the ordinals of abstract numbers (["num", ord, rep]) throughout a decoded JSON value
+func remapNums(x interface{}, m map[int]int) interface{} {
+	switch v := x.(type) {
+	case []interface{}:
+		if len(v) == 3 {
+			if tag, ok := v[0].(string); ok && tag == "num" {
+				if ord, ok := v[1].(float64); ok {
+					if to, has := m[int(ord)]; has {
+						return []interface{}{"num", float64(to), v[2]}
+					}
+				}
+				return v
+			}
+		}
+		out := make([]interface{}, len(v))
+		for i, e := range v {
+			out[i] = remapNums(e, m)
+		}
+		return out
+	case map[string]interface{}:
+		for k, e := range v {
+			v[k] = remapNums(e, m)
+		}
+		return v
+	}
+	return x
+}
